@@ -166,6 +166,35 @@ def valueset_used_as_type(text):
     return False
 
 
+def unsigned_bounds(lo, hi):
+    try:
+        l = int(lo)
+    except ValueError:
+        return False
+    if l < 0:
+        return False
+    if hi == "MAX":
+        return True
+    try:
+        return 2**31 <= int(hi) < 2**32
+    except ValueError:
+        return False
+
+
+def of_unsigned_through_param(text):
+    """C10-of-unsigned-element reached through a template: P {T} ::= ... OF T ... instantiated with an INTEGER whose
+    constraint selects the unsigned representation"""
+    t = strip_comments(text)
+    for name, params, body in re.findall(r"(?m)^\s*([A-Z][\w-]*)\s*\{([^{}]*)\}\s*::=(.*)$", t):
+        dummies = [x.strip().split(":")[-1].strip() for x in params.split(",")]
+        if not any(re.search(r"\bOF\s+%s\b" % re.escape(d), body) for d in dummies if d):
+            continue
+        for acts in re.findall(r"\b%s\s*\{([^{}]*)\}(?!\s*::=)" % re.escape(name), t):
+            if any(unsigned_bounds(lo, hi) for lo, hi in re.findall(r"\bINTEGER\s*\(\s*(-?\w+)\s*\.\.\s*(-?\w+)", acts)):
+                return True
+    return False
+
+
 def match_finding(stage, job):
     """-> finding id or None.  Each rule = symptom signature (the site) AND a predicate on (module text, options)."""
     text, opts = job["mod"]["text"], job["opts"]
@@ -185,7 +214,7 @@ def match_finding(stage, job):
         if job["rc"] == -11 and enum_value_reference(text):
             return "C10-enum-value-reference-crash"
     if stage in ("build", "cxx"):
-        if re.search(r"asn_DEF_Member_\d+. undeclared", blog) and has_of_unsigned_integer(text):
+        if re.search(r"asn_DEF_Member_\d+. undeclared", blog) and (has_of_unsigned_integer(text) or of_unsigned_through_param(text)):
             return "C10-of-unsigned-element"
         if re.search(r"expected specifier-qualifier-list before .typedef.|invalid use of undefined type .struct \w*Member\w*", blog) \
            and "-fcompound-names" in opts and nested_anon_of(text):
@@ -367,8 +396,8 @@ def main(tier):
             # per module, rotating so that all subsets are built across the corpus
             if tier == "quick" and m["origin"] in ("special", "multi", "grammar") and not m.get("all_optsets") and oi not in (mi % 2, 2 + (mi // 2) % 2):
                 continue        # quick: generated modules get the 4 option sets, hand-made valid ones 2 of them in rotation
-            if tier == "quick" and m["origin"] == "param" and oi not in (1, 3, (0, 2, 1)[mi % 3]):
-                continue        # parameterized modules mostly need -fcompound-names (sets 1, 3); a third set in rotation
+            if tier == "quick" and m["origin"] == "param" and oi not in (1, (3, 0, 2)[mi % 3]):
+                continue        # parameterized modules mostly need -fcompound-names (set 1); a second set in rotation
             if tier == "quick" and m["origin"] == "grammar-refused" and oi != mi % 4:
                 continue        # refusals happen in the parser / fixer: one option set each
             # thorough: build + translator under 16 rotating subsets per module (6 for the region modules of round 2, which are many)
@@ -379,7 +408,7 @@ def main(tier):
     res = run_jobs(jobs)
     print("C10: jobs done at %.1fs" % (time.time() - T0), file=sys.stderr)
 
-    tables, table_jobs = [], []
+    tables, table_jobs, tabled = [], [], set()
     for j in res:
         m, opts = j["mod"], j["opts"]
         case = "%s %s" % (m["name"], " ".join(opts))
@@ -445,6 +474,10 @@ def main(tier):
         run.count("descriptors", len(terms))
         for k, _n in names_.values():
             run.count("kind:" + k)
+        if tier == "quick" and m["origin"] in ("param", "multi", "grammar", "grammar-refused") and m["name"] in tabled:
+            run.count("descriptor-tables-not-rechecked(round-2 module, second option set)")
+            continue            # quick: the descriptor obligation of a round-2 module is generated for its first option set only
+        tabled.add(m["name"])
         tables.append((case, "-no-gen-PER" not in opts, "-no-gen-OER" not in opts, terms))
         table_jobs.append((j, names_, replay))
         if len(run.cov["samples"]) < 3 and m["origin"] in ("special", "modgen") and len(terms) >= 3:
